@@ -13,7 +13,7 @@ func init() {
 	register(&propDef{
 		id: "C01",
 		li: levelInfo{
-			Level: "other",
+			Level:       "other",
 			Explanation: "Static necessary conditions of in-order, exactly-one replies. R1 (who-may-touch): each of the three FIFO queues (session.processingReqs, client.pendingReqs, client.processingReqs) has the expected producer and consumer functions only; each encoder/decoder is used by one loop function; each loop function is started once, outside any loop. R2 (per-iteration pairing on the CFG): downstream reader - every decoded value is wrapped, dispatched and enqueued exactly once before the next decode; downstream writer - every dequeued request is waited for and its own response encoded exactly once before the next dequeue; backend writer - unless the filter stopped it, a dequeued request is encoded once and then handed to the sent-queue (or the function exits) before the next dequeue - a request already on the wire always gets its FIFO entry; backend reader - one decode and one dequeue per iteration, both given to the reply dispatcher. R3: split/assemble agreement - child k is built from argument f(k) (f from the reference: k+1 for MGET and the sum commands, 2k+1/2k+2 for MSET), every iteration adds exactly one child, reply element i is children[i]'s response, the sum accumulates every child's integer. R4 (taint): no client- or backend-supplied text reaches the text of an error/simple-string reply line unless it is a key of a constant table, quoted, or stripped of CR LF. Ordering under real schedules and cross-connection isolation as a whole are not decided.",
 			TrustedBase: []string{"go/ssa", "VTA call graph"},
 		},
@@ -454,6 +454,8 @@ func checkC01(c *Ctx) {
 	checkReplyLineTaint(c, "R4")
 
 	// ---------------- R5: a queued request must not change under the proxy's feet
+	c.Rule("R6", "flush gate (shared with C02.R8): a reply/request encoded by a writer loop is flushed before the loop blocks on an empty queue - otherwise a read request has no reply on the wire")
+	checkFlushGate(c, "R6")
 	c.Rule("R5", "no alias of the read buffer escapes into a decoded request (shared with C10.R2): a queued request is not rewritten by the next read")
 	checkReadBufferAlias(c, "R5")
 }
@@ -463,9 +465,9 @@ func checkSplitAssemble(c *Ctx, rule string) {
 	p := c.P
 	type spec struct {
 		typ   string
-		start int64                 // loop start
-		args  [][2]int64            // expected linear forms a*i+b of the body arguments used, in order
-		head  string                // constant command word of the child ("" = Array[0] of the parent)
+		start int64      // loop start
+		args  [][2]int64 // expected linear forms a*i+b of the body arguments used, in order
+		head  string     // constant command word of the child ("" = Array[0] of the parent)
 	}
 	specs := []spec{
 		{"mgetRequest", 1, [][2]int64{{1, 0}}, "get"},
